@@ -17,6 +17,7 @@ import (
 	"github.com/tencent/goom/internal/bytecode"
 	"github.com/tencent/goom/internal/bytecode/memory"
 	"github.com/tencent/goom/internal/patch"
+	sub "github.com/tencent/goom/internal/zzverif/c02x/c02"
 	"github.com/tencent/goom/internal/zzverif/vh"
 )
 
@@ -53,6 +54,9 @@ var targets = []*target{
 	{name: "(*L).Addm", method: "Addm", fam: "L", fn: (*L).Addm, mv: func() interface{} { return (&L{N: 1}).Addm }, call: func() int { return (&L{N: 1}).Addm(probeArg) }},
 	{name: "(*L).Addfm", method: "Addfm", fam: "L", fn: (*L).Addfm, mv: func() interface{} { return (&L{N: 1}).Addfm }, call: func() int { return (&L{N: 1}).Addfm(probeArg) }},
 	{name: "(*L).Addmf", method: "Addmf", fam: "L", fn: (*L).Addmf, mv: func() interface{} { return (&L{N: 1}).Addmf }, call: func() int { return (&L{N: 1}).Addmf(probeArg) }},
+	{name: "(*T).M7", method: "M7", fam: "S", fn: (*sub.T).M7, mv: func() interface{} { return (&sub.T{A: 1}).M7 }, call: func() int { return (&sub.T{A: 1}).M7(probeArg) }},
+	{name: "G5", fn: G5int64, gen: true, fam: "G", call: func() int { return int(CallG5b(probeArg)) }},
+	{name: "u4", fn: sub.U4, fam: "P", call: func() int { return sub.CallU4(probeArg) }},
 }
 
 type neighbour struct {
@@ -69,6 +73,8 @@ var neighbours = []*neighbour{
 var cbF = []interface{}{K0, K1, K2, K3}
 var cbM = []interface{}{KM0, KM1, KM2, KM3}
 var cbL = []interface{}{KL0, KL1, KL2, KL3}
+var cbS = []interface{}{KS0, KS1, KS2, KS3}
+var cbG = []interface{}{KG0, KG1, KG2, KG3}
 
 // cbFor picks the callback of class k with the target's signature
 func cbFor(t *target, k int) interface{} {
@@ -77,6 +83,10 @@ func cbFor(t *target, k int) interface{} {
 		return cbM[k]
 	case "L":
 		return cbL[k]
+	case "S":
+		return cbS[k]
+	case "G":
+		return cbG[k]
 	}
 	return cbF[k]
 }
@@ -151,6 +161,8 @@ func setup() {
 		cbSym[funcvalAddr(cbF[k])] = fmt.Sprintf("k%d", k)
 		cbSym[funcvalAddr(cbM[k])] = fmt.Sprintf("k%d", k)
 		cbSym[funcvalAddr(cbL[k])] = fmt.Sprintf("k%d", k)
+		cbSym[funcvalAddr(cbS[k])] = fmt.Sprintf("k%d", k)
+		cbSym[funcvalAddr(cbG[k])] = fmt.Sprintf("k%d", k)
 	}
 	snapshot = make([]byte, textHi-textLo)
 	copy(snapshot, memory.RawAccess(textLo, len(snapshot)))
@@ -290,12 +302,16 @@ type hist struct {
 	handles map[string]*handle
 	structs map[int]*mocker.CachedMethodMocker // `sm := b.Struct(x)` kept by the user (op K)
 	cur     *mocker.CachedMethodMocker         // set while an s* op runs: go through the kept struct mocker
+	subT    bool                               // set while an op on the namesake type's method runs
 }
 
 // structM is the struct mocker an operation goes through: the kept one (s* ops) or a fresh b.Struct(x) lookup
 func (h *hist) structM(b *mocker.Builder) *mocker.CachedMethodMocker {
 	if h.cur != nil {
 		return h.cur
+	}
+	if h.subT {
+		return b.Struct(&sub.T{}) // the namesake type: its own struct mocker
 	}
 	return b.Struct(&T{})
 }
@@ -327,8 +343,36 @@ func (h *hist) exported(b *mocker.Builder, via string, t *target) mocker.Exporte
 		return h.structM(b).ExportMethod(t.method).As(t.fn)
 	case "v":
 		return b.Func(methodValue(t))
+	case "x":
+		return b.ExportStruct("*T").Method(t.method).As(t.fn)
+	case "p":
+		return b.Pkg(sub.PkgPath).ExportFunc(t.name).As(t.fn)
 	}
 	panic("bad-op")
+}
+
+// unexported returns the UnExportedMocker of the by-name vias: e ExportFunc(name), u Struct(x).ExportMethod(m),
+// x ExportStruct("*T").Method(m)
+func (h *hist) unexported(b *mocker.Builder, via string, t *target) mocker.UnExportedMocker {
+	switch via {
+	case "e":
+		return b.ExportFunc(t.name)
+	case "u":
+		return h.structM(b).ExportMethod(t.method)
+	case "x":
+		return b.ExportStruct("*T").Method(t.method)
+	case "p":
+		return b.Pkg(sub.PkgPath).ExportFunc(t.name)
+	}
+	panic("bad-op")
+}
+
+// retVal is the stub value with the target's result type
+func retVal(t *target, v int) interface{} {
+	if t.fam == "G" {
+		return int64(200000 + v)
+	}
+	return 200000 + v
 }
 
 // methodValue is `recv.M` (a method value): goom sees the `-fm` wrapper and patches the method by name
@@ -365,6 +409,26 @@ func (h *hist) step(toks []string) {
 		h.structs[bi] = b.Struct(&T{})
 		return
 	}
+	if toks[0] == "Y" {
+		// a mocker kind outside C02 in the builder's cache: looked up, never Set; Reset walks it too
+		if len(toks) != 2 {
+			panic("bad-op")
+		}
+		_ = b.Var(&VarTarget)
+		return
+	}
+	if toks[0] == "ab" {
+		// Func(f).Apply(callback with a signature the target does not have): must be rejected before anything is patched
+		if len(toks) != 4 || toks[2] != "f" {
+			panic("bad-op")
+		}
+		ti := atoi(toks[3])
+		if ti < 0 || ti >= len(targets) {
+			panic("bad-op")
+		}
+		b.Func(targets[ti].fn).Apply(KBad)
+		return
+	}
 	if len(toks[0]) == 2 && toks[0][0] == 's' {
 		// sa / sr / sw / sc / sk: the same as a / r / w / c / k, but through the kept struct mocker
 		if h.structs[bi] == nil || len(toks) < 3 || (toks[2] != "m" && toks[2] != "u") {
@@ -383,19 +447,22 @@ func (h *hist) step(toks []string) {
 		panic("bad-op")
 	}
 	via, t := toks[2], targets[ti]
-	if !strings.Contains("femuv", via) || len(via) != 1 {
+	if !strings.Contains("femuvxp", via) || len(via) != 1 || (via == "p") != (t.fam == "P") {
 		panic("bad-op")
 	}
-	if toks[0] == "w" && ((t.method != "" && via != "m") || ti == 5) { // generic shape bodies take a dictionary first: argument matching on them is C01's subject
+	if toks[0] == "w" && ((t.method != "" && via != "m") || t.gen) { // generic shape bodies take a dictionary first: argument matching on them is C01's subject
 		panic("bad-op") // When(arg) on a method needs the Struct(..).Method mocker (receiver handling)
 	}
 	if (toks[0] == "a" || toks[0] == "A") && (atoi(toks[4]) < 0 || atoi(toks[4]) >= len(cbF)) {
 		panic("bad-op")
 	}
 	isMeth := t.method != ""
-	if ((via == "m" || via == "u") && t.fam != "T") || (via == "v" && !isMeth) || (t.lit && via != "f") {
+	if (via == "m" && t.fam != "T" && t.fam != "S") || ((via == "u" || via == "x") && t.fam != "T") || (via == "v" && !isMeth) ||
+		(via == "e" && (t.lit || t.gen || t.fam == "S")) || (t.lit && via != "f") || (h.cur != nil && t.fam != "T") {
 		panic("bad-op")
 	}
+	h.subT = t.fam == "S"
+	defer func() { h.subT = false }()
 	var origin interface{}
 	argn := 4
 	if toks[0] != "c" {
@@ -407,7 +474,7 @@ func (h *hist) step(toks []string) {
 			panic("bad-op")
 		}
 		p := placeholders[pi]
-		if p.meth != (t.fam == "T") || t.fam == "L" {
+		if p.meth != (t.fam == "T") || (t.fam != "" && t.fam != "T" && t.fam != "P") {
 			panic("bad-op")
 		}
 		origin = p.ptr
@@ -417,10 +484,8 @@ func (h *hist) step(toks []string) {
 	case "k":
 		hd := &handle{}
 		switch via {
-		case "e":
-			hd.un = b.ExportFunc(t.name)
-		case "u":
-			hd.un = h.structM(b).ExportMethod(t.method)
+		case "e", "u", "x", "p":
+			hd.un = h.unexported(b, via, t)
 		default:
 			hd.exp = h.exported(b, via, t)
 		}
@@ -444,9 +509,9 @@ func (h *hist) step(toks []string) {
 			}
 		case "R":
 			if hd.un != nil {
-				hd.un.As(t.fn).Return(200000 + atoi(toks[4]))
+				hd.un.As(t.fn).Return(retVal(t, atoi(toks[4])))
 			} else {
-				hd.exp.Return(200000 + atoi(toks[4]))
+				hd.exp.Return(retVal(t, atoi(toks[4])))
 			}
 		case "C":
 			if hd.un != nil {
@@ -467,14 +532,8 @@ func (h *hist) step(toks []string) {
 				m = m.Origin(origin)
 			}
 			m.Apply(cb)
-		case "e":
-			var m mocker.UnExportedMocker = b.ExportFunc(t.name)
-			if origin != nil {
-				m = m.Origin(origin)
-			}
-			m.Apply(cb)
-		case "u":
-			m := h.structM(b).ExportMethod(t.method)
+		case "e", "u", "x", "p":
+			m := h.unexported(b, via, t)
 			if origin != nil {
 				m = m.Origin(origin)
 			}
@@ -487,7 +546,7 @@ func (h *hist) step(toks []string) {
 		if origin != nil {
 			m = m.Origin(origin)
 		}
-		v := 200000 + atoi(toks[4])
+		v := retVal(t, atoi(toks[4]))
 		if toks[0] == "r" {
 			m.Return(v)
 		} else if isMeth {
@@ -499,10 +558,8 @@ func (h *hist) step(toks []string) {
 		switch via {
 		case "f", "m", "v":
 			h.exported(b, via, t).Cancel()
-		case "e":
-			b.ExportFunc(t.name).Cancel()
-		case "u":
-			h.structM(b).ExportMethod(t.method).Cancel()
+		case "e", "u", "x", "p":
+			h.unexported(b, via, t).Cancel()
 		default:
 			panic("bad-op")
 		}
@@ -533,6 +590,10 @@ func errClass(msg string) string {
 		return "too-small"
 	case strings.Contains(msg, "already patched"):
 		return "already-patched"
+	case strings.Contains(msg, "not found") || strings.Contains(msg, "unknown method"):
+		return "symbol-not-found"
+	case strings.Contains(msg, "func signature mismatch"):
+		return "rejected"
 	case strings.HasPrefix(msg, "proxy ") || strings.HasPrefix(msg, "address overflow"):
 		return "fix-origin" // every other error of replaceFunc comes from fixOrigin (relocation into the placeholder)
 	}
@@ -626,7 +687,15 @@ func TestVerifC02(t *testing.T) {
 		fmt.Fprintf(os.Stderr, "c02 running %d\n", op.Idx)
 		h := &hist{}
 		for i := 0; i < nb; i++ {
-			h.b = append(h.b, mocker.Create())
+			if i%2 == 1 {
+				// the shared-test-helper pattern: created in another package, used from this one; the first lookup still
+				// resolves names in the creator's package, so spend it on a mocker kind that is none of C02's business
+				bb := sub.NewBuilder()
+				_ = bb.Var(&VarTarget)
+				h.b = append(h.b, bb)
+			} else {
+				h.b = append(h.b, mocker.Create())
+			}
 		}
 		var obs []string
 		for _, st := range splitSteps(strings.Fields(parts[2])) {
@@ -665,8 +734,10 @@ func describeStatic() string {
 	for k := range cbM {
 		ks = append(ks, fmt.Sprintf("%#x", funcvalAddr(cbM[k])))
 	}
-	for k := range cbL {
-		ks = append(ks, fmt.Sprintf("%#x", funcvalAddr(cbL[k])))
+	for _, fam := range [][]interface{}{cbL, cbS, cbG} {
+		for k := range fam {
+			ks = append(ks, fmt.Sprintf("%#x", funcvalAddr(fam[k])))
+		}
 	}
 	for _, p := range placeholders {
 		sz, err := bytecode.GetFuncSize(64, p.entry, false)
@@ -689,7 +760,7 @@ func TestVerifC02Describe(t *testing.T) {
 	for _, tg := range targets {
 		row := ""
 		for _, p := range placeholders {
-			if p.meth != (tg.fam == "T") || tg.fam == "L" {
+			if p.meth != (tg.fam == "T") || tg.fam == "L" || tg.fam == "S" || tg.fam == "G" || tg.fam == "P" {
 				row += "-"
 				continue
 			}
@@ -738,6 +809,25 @@ func TestVerifC02Stale(t *testing.T) {
 	defer out.Close()
 	from, _ := strconv.Atoi(os.Getenv("VERIF_FROM"))
 	for _, op := range vh.ReadOps() {
+		if op.Idx >= from && len(op.Toks) == 1 && op.Toks[0] == "c02.shape" {
+			// two instantiations with the same gc shape: mock one, observe both, Reset, observe both
+			fmt.Fprintf(os.Stderr, "c02 running %d\n", op.Idx)
+			h := &hist{b: []*mocker.Builder{mocker.Create()}}
+			origA, origB := CallQA(probeArg), CallQB(probeArg)
+			res := vh.Catch(func() string {
+				h.b[0].Func(QA).Apply(KQA)
+				a, b := safeCall(func() int { return CallQA(probeArg) }, origA), safeCall(func() int { return CallQB(probeArg) }, origB)
+				h.b[0].Reset()
+				a2, b2 := safeCall(func() int { return CallQA(probeArg) }, origA), safeCall(func() int { return CallQB(probeArg) }, origB)
+				return fmt.Sprintf("a=%s b=%s after=%s,%s", a, b, a2, b2)
+			})
+			end := cleanup(h)
+			if strings.HasPrefix(end, "?") { // the shape body is not a corpus target: its own jump is expected before Reset only
+				end = "?"
+			}
+			out.Put(op.Idx, "%s end d=%s", res, end)
+			continue
+		}
 		if op.Idx < from || len(op.Toks) != 6 || op.Toks[0] != "c02.stale" {
 			continue
 		}
